@@ -4,6 +4,7 @@
 (*   [ndata, nsw, nodes : Seq(Node), yield : Ref]                          *)
 (*   Node = [kind |-> "choose", sw, a : Seq(Ref), alts : Seq([op, a])]     *)
 (*        | [kind |-> "mux", sw, a : <<lhs, rhs>>]                         *)
+(*        | [kind |-> "op", a : <<x, y>>, alts : <<[op]>>]  (no switch)    *)
 (*   Ref  = [t |-> "arg", i] (data input i, 0-based) | [t |-> "node", i]   *)
 (* sv is the full switch vector (0-based switch k is sv[k + 1]).           *)
 (* Evaluation is demand driven along the SELECTED paths only: alternative  *)
@@ -35,6 +36,8 @@ EvalRef(G, sv, data, ref, fuel) ==
   ELSE LET n == G.nodes[ref.i] IN
     IF n.kind = "mux"
     THEN EvalRef(G, sv, data, IF sv[n.sw + 1] = 1 THEN n.a[2] ELSE n.a[1], fuel - 1)
+    ELSE IF n.kind = "op"      \* an operation without a switch (what is left of a choose with a single alternative in the hardware view)
+    THEN BinSem(n.alts[1].op, EvalRef(G, sv, data, n.a[1], fuel - 1), EvalRef(G, sv, data, n.a[2], fuel - 1))
     ELSE IF sv[n.sw + 1] < 0 \/ sv[n.sw + 1] >= Len(n.alts) THEN Undef
     ELSE LET alt == n.alts[sv[n.sw + 1] + 1] IN
          BinSem(alt.op, EvalRef(G, sv, data, n.a[alt.a[1] + 1], fuel - 1), EvalRef(G, sv, data, n.a[alt.a[2] + 1], fuel - 1))
@@ -47,7 +50,7 @@ EvalK(K, data, ref) ==
 EvalKernel(K, data) == EvalK(K, data, K.yield)
 
 (* switches that exist in hardware: those driving a mux or a choose with more than one alternative, in block-argument order *)
-IsRealSwitch(G, k) == \E i \in DOMAIN G.nodes : G.nodes[i].sw = k /\ (G.nodes[i].kind = "mux" \/ Len(G.nodes[i].alts) > 1)
+IsRealSwitch(G, k) == \E i \in DOMAIN G.nodes : G.nodes[i].kind # "op" /\ G.nodes[i].sw = k /\ (G.nodes[i].kind = "mux" \/ Len(G.nodes[i].alts) > 1)
 RealSwitches(G) == LET RECURSIVE F(_) F(k) == IF k >= G.nsw THEN <<>> ELSE (IF IsRealSwitch(G, k) THEN <<k>> ELSE <<>>) \o F(k + 1) IN F(0)
 Expand(G, decoded) ==
   LET rs == RealSwitches(G) IN
